@@ -62,16 +62,25 @@ def assocSet : List (String × Val) → String → Val → List (String × Val)
   | [], k, v => [(k, v)]
   | (k', v') :: rest, k, v => if k' == k then (k, v) :: rest else (k', v') :: assocSet rest k v
 
-/-- Go `unicode.ToLower` / `ToUpper` on the first rune (ASCII + Latin-1 letters as Lean's Char.toLower covers ASCII;
-    keys of the modelled data are ASCII-initial) -/
+/-- `unicode.ToLower` / `unicode.ToUpper` on the letters the model meets: ASCII, Latin-1, Greek and basic Cyrillic capitals -/
+def goToLower (c : Char) : Char :=
+  let n := c.toNat
+  if (0xC0 ≤ n && n ≤ 0xDE && n != 0xD7) || (0x391 ≤ n && n ≤ 0x3A9 && n != 0x3A2) || (0x410 ≤ n && n ≤ 0x42F) then Char.ofNat (n + 32)
+  else c.toLower
+
+def goToUpper (c : Char) : Char :=
+  let n := c.toNat
+  if (0xE0 ≤ n && n ≤ 0xFE && n != 0xF7) || (0x3B1 ≤ n && n ≤ 0x3C9 && n != 0x3C2) || (0x430 ≤ n && n ≤ 0x44F) then Char.ofNat (n - 32)
+  else c.toUpper
+
 def lowerFirst (s : String) : String :=
   match s.toList with
   | [] => ""
-  | c :: r => String.ofList (c.toLower :: r)
+  | c :: r => String.ofList (goToLower c :: r)
 
 def upperFirst (s : String) : String :=
   match s.toList with
   | [] => ""
-  | c :: r => String.ofList (c.toUpper :: r)
+  | c :: r => String.ofList (goToUpper c :: r)
 
 end Pug.Tpl
